@@ -93,12 +93,12 @@ def walkG (cnd : α → α → Bool) : List (α × Nat) → Nat → List α → 
     of `[0, ptr_dist)`, right-closed ones in the upper half -/
 def ptrCmp (lo : Bool) (c t : α) : Bool := if lo then decide (c ≤ t) else decide (c < t)
 
-/-- everything before `rng.shuffle(sel)`: the list `sel` of selected indices, in pointer order.
+/-- `k > 0`: everything before `rng.shuffle(sel)`: the list `sel` of selected indices, in pointer order.
     `sigma` = `p.argsort()[::-1]` (oracle: numpy's unstable sort decides the order of ties),
     `offset` = the value returned by `rng.uniform(0.0, ptr_dist)`;
     `0.5 * ptr_dist` is exact in binary64, so `offset < 0.5*ptr_dist` is modelled as `offset + offset < ptr_dist`;
     `numpy.count_nonzero(p)` counts the entries that are `< 0` or `> 0`. -/
-def susIdx (p : List α) (k : Nat) (sigma : List Nat) (offset : α) : Except String (List Nat) :=
+def susIdxCore (p : List α) (k : Nat) (sigma : List Nat) (offset : α) : Except String (List Nat) :=
   if isPerm sigma p.length = true then
     if nonIncreasing (sigma.map (fun i => p.getD i 0)) = true then
       if k = 0 then .error "value" else
@@ -112,6 +112,11 @@ def susIdx (p : List α) (k : Nat) (sigma : List Nat) (offset : α) : Except Str
       else .error "oracle: offset outside [0, ptr_dist)"
     else .error "oracle: sigma does not sort p in descending order"
   else .error "oracle: sigma is not a permutation of the indices"
+
+/-- the function from its first line: `if k == 0: return a[numpy.zeros(size, dtype=int)]` (fix f1943417: an empty
+    request is answered with an empty selection before anything is computed or drawn), otherwise `susIdxCore` -/
+def susIdx (p : List α) (k : Nat) (sigma : List Nat) (offset : α) : Except String (List Nat) :=
+  if k = 0 then .ok [] else susIdxCore p k sigma offset
 
 /-- `sel` after `rng.shuffle(sel)` (`perm` = the rearrangement the generator made): the indices into
     `a` of the returned array, flat in row-major order (the returned array has shape `size`) -/
@@ -286,8 +291,14 @@ def axisEff (axis : List Int) : List Nat :=
 def axisReq (ndim : Nat) (axis : List Int) : List Nat :=
   axis.filterMap (fun z => if 0 ≤ z then some z.toNat else if 0 ≤ z + (ndim : Int) then some (z + (ndim : Int)).toNat else none)
 
-/-- `axis_shuffle` with the `axis` argument as the caller gives it (integers of either sign) -/
+/-- `axis_shuffle` with the `axis` argument as the caller gives it (integers of either sign):
+    `axis = tuple(ax + a.ndim if ax < 0 else ax for ax in axis)` (fix 5396d924), then the loop -/
 def axisShuffleZ {β : Type} [Inhabited β] (shape : List Nat) (axis : List Int) (data : List β)
+    (perms : List (List Nat)) : Except String (List β) :=
+  axisShuffleLoop shape (axisReq shape.length axis) data perms
+
+/-- before fix 5396d924: negative entries were not normalised, hence ignored -/
+def axisShuffleZPrerepair {β : Type} [Inhabited β] (shape : List Nat) (axis : List Int) (data : List β)
     (perms : List (List Nat)) : Except String (List β) :=
   axisShuffleLoop shape (axisEff axis) data perms
 
@@ -343,10 +354,11 @@ def outcross (nrow ncol : Nat) (x : List β) (orders : List (List (Nat × Nat)))
     else .error "oracle: every pass must visit every pair once"
   else .error "oracle: data does not fit shape"
 
-/-- `outcross_shuffle` on a table of any memory layout.  `xravel = xconfig.ravel()` is a view of the table only
-    when the table is C-contiguous; otherwise it is a copy: every exchange is made on the copy,
-    `objfn(xconfig)` never changes, the first pass ends without an improvement and the table is left as it was. -/
-def outcrossNd (cContiguous : Bool) (nrow ncol : Nat) (x : List β) (orders : List (List (Nat × Nat))) :
+/-- before fix 5d3f529a (`xravel = xconfig.ravel()` instead of `xconfig.flat`): the ravel was a view of the table
+    only when the table was C-contiguous; otherwise every exchange was made on a copy, `objfn(xconfig)` never
+    changed, the first pass ended without an improvement and the table was left as it was.
+    (After the fix `xconfig.flat` writes through for every layout: `outcross` is the model for all tables.) -/
+def outcrossPrerepair (cContiguous : Bool) (nrow ncol : Nat) (x : List β) (orders : List (List (Nat × Nat))) :
     Except String (List β) :=
   if cContiguous = true then outcross nrow ncol x orders
   else if x.length = nrow * ncol then .ok x else .error "oracle: data does not fit shape"
